@@ -12,6 +12,14 @@ CHECKS = {
             'Reals not doubles (literals read as stored doubles); tolerance 1e-12 relative to the coefficient sum; z3, CPython, own C-expression reader (cross-checked: worst measured deviation 4e-15) trusted.',
             'DESIGN.md section 4 C10'),
 }
+CHECKS['C02'] = (OTHER, 'symbolic execution of the real Panel.calc_k0 over de-Cythonised .pyx kernels (exact rational-function scalars) vs Donnell strain-energy Hessian oracle on shared integral atoms; z3 qfnra-nlsat decides each entry identity; sat -> exact-rational replay of the same code',
+    'Bounded symbolic verification: for the unrolled series orders/sections every matrix entry is proved equal to the energy Hessian for ALL real geometry, 18 ABD entries, 24 real edge flags, pre-loads and sub-intervals; tiling/full-width/placement/pre-load variants included; translator validated against the compiled extension on each run while it is current.',
+    'Bounds: (m,n) and cone sections listed in evidence; reals not floats; integral atoms mean exact integrals (C10); read_stack stubbed (C01); own de-Cythoniser trusted after per-run validation against the compiled kernels.',
+    'DESIGN.md section 4 C02')
+CHECKS['C03'] = (OTHER, 'symbolic execution of the real Panel.calc_kG0 over de-Cythonised fkG0/fkG0y1y2/fkG_num vs pre-stress-work Hessian oracle (state-based: N = A eps + B kappa at symbolic quadrature points); z3 qfnra-nlsat per entry; exact-rational replay',
+    'Bounded symbolic verification for all real resultants (any sign, shear), geometry, flags, sub-intervals; state-based kernel at integrand level (hence for every quadrature rule) and with 2x2/3x3 symbolic points, NLgeom 0/1, uniform vs per-point laminate table.',
+    'Bounds as in evidence; reals; atoms = exact integrals/functions (C10); stubs: leggauss_quad (symbolic), read_stack.',
+    'DESIGN.md section 4 C03')
 NA = {
     'C15': 'eigenvalue monotonicity/convergence for pencils of size 48..768 is not a bounded first-order query any installed solver can decide; the algebraic ingredients (exact Hessians, exact tables, nestedness) are decided under C02-C04 and C10 (DESIGN.md section 5)',
 }
